@@ -1,4 +1,5 @@
 CONSTANT ParserLimit = FALSE
+CONSTANT DataLimit = FALSE
 SPECIFICATION Spec
 INVARIANT Emit
 CHECK_DEADLOCK FALSE
